@@ -114,6 +114,10 @@ def limit_cases(cfgname):
             lim_here = mls if applies == "line" else mfs
             L = (mls if which == "line" else mfs) + d
             expect = "reject" if L > lim_here else "accept"
+            if elem == "trailer" and expect == "accept" and 4 + 1 > mh:
+                # max_headers is a budget of lines shared by the head (start line, 2 fields, empty line) and the
+                # trailer section: with the head using all of it, refusing the trailer is within the configuration
+                expect = None
         elif label.startswith("nfields="):
             n = int(label.split("=")[1])     # n-1 extra fields + Host = n fields
             expect = "reject" if n > mh else None
@@ -190,13 +194,19 @@ def work_job(part: Part):
 
 
 # ---------------------------------------------------------------- server / client
-def server_case(part: Part, stream: bytes, label):
+async def _reading_handler(request):
+    from aiohttp import web
+    body = await request.read()
+    return web.Response(text=f"read{len(body)}")
+
+
+def server_case(part: Part, stream: bytes, label, reading=False):
     from mc.server import serve_stream_app
 
-    r = serve_stream_app(stream)
+    r = serve_stream_app(stream, handler=_reading_handler) if reading else serve_stream_app(stream)
     part.count("executions")
     part.count("server_runs")
-    case = {"kind": "server", "stream": stream, "label": repr(label)}
+    case = {"kind": "server", "stream": stream, "label": repr(label), "reading": reading}
     if r["escaped"]:
         part.violation(f"C10:server:exception-escapes-data_received:{r['escaped'][0]}",
                        f"{r['escaped']} escaped RequestHandler.data_received for {stream[:80]!r}", case)
@@ -323,6 +333,15 @@ def _job(job):
                 continue
             seen.add(key)
             server_case(part, hc.render(ms), (name, d))
+    elif kind == "server-limits":
+        # every limit (and the trailer section's field rules) through the real server, with a handler that ignores
+        # the body and one that reads it: a protocol error is a 400 whoever notices it first
+        mls, mfs, mh = _limits(CONFIGS["default"])
+        extra = [("trailer-dup-" + n.decode(), b"POST / HTTP/1.1\r\nHost: a\r\nTransfer-Encoding: chunked\r\n\r\n1\r\nx\r\n0\r\n"
+                  + n + b": a\r\n" + n + b": b\r\n\r\n" + hc.NEXT) for n in (b"Content-Type", b"Host", b"Content-Length", b"X-Any")]
+        for label, s in list(hc.limit_streams(mls, mfs, mh)) + extra:
+            for reading in (False, True):
+                server_case(part, s, ("server-limits", label), reading=reading)
     elif kind == "work":
         work_job(part)
     return part
@@ -349,6 +368,7 @@ def run(ctx):
         jobs += [("responses", r, c) for r in range(len(hc.response_streams()))]
     jobs += [("bytes", i) for i in range(nb)]
     jobs += [("server", i) for i in range(nb)]
+    jobs.append(("server-limits",))
     for part in ctx.pmap(_job, jobs):
         ctx.merge(part)
     ctx.notes["configs"] = cfgs
@@ -358,7 +378,7 @@ def replay(case):
     part = Part()
     k = case.get("kind")
     if k == "server":
-        server_case(part, case["stream"], case.get("label"))
+        server_case(part, case["stream"], case.get("label"), reading=case.get("reading", False))
     elif k == "client":
         client_case(part, case["stream"], case.get("pkw") or {}, case.get("label"))
     elif k == "work":
